@@ -1,32 +1,68 @@
 package main
 
-import "fmt"
+import (
+	"fmt"
+	"go/types"
+	"strings"
+)
+
+func isByteSeq(t types.Type) bool {
+	if isString(t) {
+		return true
+	}
+	if sl, ok := t.Underlying().(*types.Slice); ok {
+		if b, ok := sl.Elem().Underlying().(*types.Basic); ok && b.Kind() == types.Uint8 {
+			return true
+		}
+	}
+	return false
+}
 
 // replayResult tries the model's initial heap first; for obligations inside loops the
 // counterexample describes an arbitrary iteration (the heap at the loop head is havocked), so
-// the contents of the havocked heap versions are tried as inputs too.
+// the contents of the havocked heap versions and the loop-head values of re-assigned parameters
+// are tried as inputs too. Last, for panic-class obligations, byte contents that the model leaves
+// unconstrained are concretised from a small fixed pattern set.
 func replayResult(P *Program, r *Result) (note, suffix string) {
 	note, suffix = replayOnce(P, r, 0)
-	if suffix == "" || r.Status != "sat" || r.vc == nil || len(r.vc.havocked) == 0 {
+	if suffix == "" || r.Status != "sat" || r.vc == nil {
 		return
 	}
 	first := r.Replay
-	max := 0
-	for _, hs := range r.vc.havocked {
-		if len(hs) > max {
-			max = len(hs)
+	if len(r.vc.havocked) > 0 || len(r.vc.loops) > 0 {
+		max := 1
+		for _, hs := range r.vc.havocked {
+			if len(hs) > max {
+				max = len(hs)
+			}
+		}
+		if max > 5 {
+			max = 5
+		}
+		for cand := 1; cand <= max; cand++ {
+			n2, s2 := replayOnce(P, r, cand)
+			if s2 == "" {
+				r.Replay.Verdict += " (inputs taken from the state at the loop head of the counterexample)"
+				return n2 + " (inputs taken from the state at the loop head of the counterexample)", ""
+			}
+			first.Tried = append(first.Tried, fmt.Sprintf("loop-head candidate %d: inputs %v: %s", cand, r.Replay.Inputs, r.Replay.Verdict))
 		}
 	}
-	if max > 5 {
-		max = 5
-	}
-	for cand := 1; cand <= max; cand++ {
-		n2, s2 := replayOnce(P, r, cand)
-		if s2 == "" {
-			r.Replay.Verdict += " (inputs taken from the heap state at the loop head of the counterexample)"
-			return n2 + " (inputs taken from the heap state at the loop head of the counterexample)", ""
+	if strings.HasPrefix(r.Class, "safe:") && r.vc.fn != nil {
+		hasBytes := false
+		for _, p := range r.vc.fn.Params {
+			if isByteSeq(p.Type()) {
+				hasBytes = true
+			}
 		}
-		first.Tried = append(first.Tried, fmt.Sprintf("heap version candidate %d: inputs %v: %s", cand, r.Replay.Inputs, r.Replay.Verdict))
+		if hasBytes {
+			n2, s2 := replayOnce(P, r, -1)
+			if s2 == "" {
+				r.Replay.Verdict += " (byte contents left unconstrained by the model were concretised from a fixed pattern set)"
+				return n2 + " (byte contents left unconstrained by the model were concretised from a fixed pattern set)", ""
+			}
+			first.Tried = append(first.Tried, "byte-pattern concretisation: "+r.Replay.Verdict)
+		}
 	}
 	r.Replay = first
 	return
